@@ -114,6 +114,14 @@ def _drive_files(args):
         for j in range(n):
             m = isoc.gen_message(r, bc, alpha, maxbits=r.choice((2, 5, 10)) if n > 50 else r.choice((3, 8, 20, 40)))
             msgs.append(m)
+        if cfgspec[0] in ('pkg', 'pkgvar') and tid % 3 == 2:
+            # the shape of a real clearing file: header (1644/697), presentments, trailer (1644/695) - and a second batch
+            # behind the first trailer, or the trailer in the middle of a long file
+            hdr = {'MTI': '1644', 'DE24': '697', 'DE71': 1}
+            trl = {'MTI': '1644', 'DE24': '695', 'DE71': len(msgs) + 2}
+            k = max(1, len(msgs) // 2)
+            msgs = [hdr] + msgs[:k] + [trl] + [dict(hdr, DE71=len(msgs) + 3)] + msgs[k:] + [dict(trl, DE71=2 * len(msgs) + 4)]
+            n = len(msgs)
         f = io.BytesIO()
         events = []
         try:
